@@ -18,7 +18,8 @@ EXPLANATION = (
     "(4) index opacity: a successor index is only used to subscript the per-state list, in ==/in tests, stored, or "
     "range-checked by the validation - never ordered or used arithmetically in a kernel or pruning function; "
     "(pre:C01.4, C02.3) both sweeps leave their loop only through the residual test - the number of sweeps depends on the numbering, so any "
-    "other exit (budget, stall counter) makes solvability depend on it; (pre:C10.2) the relation compares two solves, so no state may survive from one solve to the next.")
+    "other exit (budget, stall counter) makes solvability depend on it; (pre:C10.2) the relation compares two solves, so no state may survive from one solve to the next."
+    ' No kernel funnels its transitions through a dictionary keyed by a part of the transition or groups the unsorted list with itertools.groupby (0:keyed).')
 ASSUMPTIONS = ["ties between successors are excluded by the property's domain for the auxiliary diagnostics (ARG picks one maximiser)"]
 TECHNIQUE = "fold classification of every successor-list consumer + opacity scan over symbolic terms (ast)"
 
